@@ -95,10 +95,10 @@ func RunTiny(c TinyCase) pbt.Outcome {
 
 var specTiny = pbt.Register(&pbt.Spec[TinyCase]{
 	Property: "C19", Name: "C19.tiny",
-	Rule: "2000..20000 SendTimeout (on a full channel nobody receives from) or RecvTimeout (on an empty channel nobody sends on) calls with positive limits sweeping 0.1..6 us: each reports false, the channel is untouched, " +
+	Rule: "1000..4000 SendTimeout (on a full channel nobody receives from) or RecvTimeout (on an empty channel nobody sends on) calls with positive limits sweeping 0.1..6 us: each reports false, the channel is untouched, " +
 		"and each comes back - a call seen in a bare channel operation twice (no timer involved) waits without limit; non-trivial = >= 1000 calls",
 	Gen: func(t *rapid.T) TinyCase {
-		return TinyCase{Recv: rapid.Bool().Draw(t, "recv"), Calls: rapid.SampledFrom([]int{2000, 20000}).Draw(t, "calls"), Cap: rapid.IntRange(0, 2).Draw(t, "cap"),
+		return TinyCase{Recv: rapid.Bool().Draw(t, "recv"), Calls: rapid.SampledFrom([]int{1000, 4000}).Draw(t, "calls"), Cap: rapid.IntRange(0, 2).Draw(t, "cap"),
 			Procs: rapid.SampledFrom([]int{1, 2, 4, 16}).Draw(t, "procs")}
 	},
 	Run: RunTiny, Quick: 10, Thorough: 60, Crashy: true, Retries: 20, CaseCPU: 120e9,
